@@ -1429,6 +1429,9 @@ def selftest():
         ("density() sums number densities without atomic weights", lambda: P(A, "density", density_plain_sum)),
         ("getMass does not expand element symbols", lambda: P(A, "_getNuclidesFromSpecifier", spec_no_elements)),
     ]
+    if os.environ.get("C02_SELFTEST_MUTANTS"):  # e.g. "0:3" -- a slice of the list, for a short run
+        lo, _, hi = os.environ["C02_SELFTEST_MUTANTS"].partition(":")
+        mutants = mutants[int(lo or 0): int(hi) if hi else None]
     t0 = time.time()
     try:
         base = detect()
@@ -1450,12 +1453,28 @@ def selftest():
 
         env = choose_designs(None)
         tree = tree_of(run_tlc("Inventory_mc", "Inventory_core_acct.cfg", env, workers=1, coverage=False))
-        tr = [t for t in trace_driver(tree, 12, 8, 0, "Core") if len(t["ev"]) >= 3][:3]
-        t1, t2 = copy.deepcopy(tr[0]), copy.deepcopy(tr[1])
-        t1["id"], t2["id"] = "corrupted-value", "dropped-event"
+        tr = [t for t in trace_driver(tree, 60, 8, 0, "Core") if len(t["ev"]) >= 3 and "outside" not in t["ev"][-1]["post"]]
+        t1 = copy.deepcopy(tr[0])
+        t1["id"] = "corrupted-value"
         q = t1["ev"][1]["post"]["N"][0]["a"]
         t1["ev"][1]["post"]["N"][0]["a"] = [q[0] + 1, q[1]]
-        del t2["ev"][0]
+        # an event that changed the composition, followed by a refused one (nothing changed): without the first, the second cannot
+        # have the logged post-state
+        t2 = None
+        for t in tr[1:]:
+            for i in range(len(t["ev"]) - 1):
+                prev = t["ev"][i - 1]["post"] if i else t["init"]
+                nxt = t["ev"][i + 1]["post"]
+                if t["ev"][i]["post"]["N"] != prev["N"] and nxt["N"] == t["ev"][i]["post"]["N"] and nxt["err"] == "ValueError":
+                    t2 = copy.deepcopy(t)
+                    del t2["ev"][i]
+                    break
+            if t2:
+                break
+        if t2 is None:
+            raise tlc.MachineryError("selftest: no recorded trace with a changing event followed by a refused one")
+        t2["id"] = "dropped-event"
+        tr = [tr[0], tr[1], tr[1] if len(tr) < 3 else tr[2]]
         bad, _ = tracecheck.validate("Inventory_trace", "Inventory_core_trace.cfg", MODDIR, [t1, t2, tr[2]], env=env)
         got = sorted(b["trace"]["id"] for b in bad)
         ok = got == ["corrupted-value", "dropped-event"]
